@@ -119,6 +119,8 @@ package loadaware
 //@   loop 1 invariant #all: nodeSelector == nil ==> (forall m map[string]string :: {spec_selMatches(selector, m)} spec_selMatches(selector, m))
 //@   loop 1 invariant forall k int :: 0 <= k && k < len(nodes) ==> nodes[k] == old(nodes[k])
 //@   loop 1 invariant #sound: forall j int :: 0 <= j && j < len(r) ==> (exists k int :: 0 <= k && k < $i && r[j] == nodes[k] && poolMember(nodes[k], nodeSelector, processedNodes))
+// (#last names the witness of #complete for the node just visited: the element appended last)
+//@   loop 1 invariant #last: $i > 0 && poolMember(nodes[$i-1], nodeSelector, processedNodes) ==> len(r) > 0 && r[len(r)-1] == nodes[$i-1]
 //@   loop 1 invariant #complete: forall k int :: 0 <= k && k < $i && poolMember(nodes[k], nodeSelector, processedNodes) ==> (exists j int :: 0 <= j && j < len(r) && r[j] == nodes[k])
 
 // processOneNodePool: the eviction pass is reached only when some node is overloaded (and confirmed
